@@ -578,7 +578,8 @@ func reifyMergeValue(
 		if err := tryValidate(old); err != nil {
 			return reflect.Value{}, raiseValidation(val.Context(), val.meta(), "", err)
 		}
-		return old, nil
+		// the old value can be a pointer (element of a map or list)
+		return pointerize(t, old.Type(), old), nil
 	}
 
 	switch baseType.Kind() {
